@@ -29,7 +29,7 @@ ASSUMPTIONS = ["value texts are canonical for their type (ints in [-2^31, 2^31) 
                "values contain neither SOH nor NUL (data with SOH belongs to C06); messages below the 8 KB encode buffer (C03)"]
 RULE = ("messages generated from the dumped metadata: every message type, mandatory fields plus a random optional subset, values per "
         "field type (negative floats, '=' inside strings, boundary dates/times), groups with 0..3 elements nested to the schema's depth, "
-        "empty groups, random insertion order; BodyLength exactly on and next to the digit-count boundaries 99/100/101, 999/1000/1001 (padded string field, messages with and without groups); each is built through the generic API, encoded, decoded by Message::factory, dumped, "
+        "empty groups, random insertion order; string values of 1023/1024/1025/2046/2047 bytes inside group elements at depth 1 and 2 (first/middle/last element, first/last string member); BodyLength exactly on and next to the digit-count boundaries 99/100/101, 999/1000/1001 (padded string field, messages with and without groups); each is built through the generic API, encoded, decoded by Message::factory, dumped, "
         "re-encoded on both sides. negative ints and INT_MIN/INT_MAX (fixed finding F01: must round-trip); known-finding classes: floats whose real rendering changes the value (|v| > 2^31 - 1: %e rendering), elements without their first field. non-trivial = all three stages OK with >= 8 tokens; distinct = distinct lines")
 
 
@@ -141,6 +141,55 @@ def gen_cases(rng, tier):
         # factory come from the same routine, so this class mainly ties the model on big high-byte content
         for cls, mt, hdr, body, trl in G.highbyte_messages(meta, rng, sizes=(1600, 4000, 7900), kinds=("rand", "cjk", "ascii"), max_types=3):
             cs.append(Case(px + "RT s " + G.ser_msg(mt, hdr, body, trl), cls))
+        # string values around the decoder's buffer boundaries (legal: < FIX8_MAX_FLD_LENGTH = 2048) INSIDE
+        # repeating-group elements at depth 1 and 2: first / middle / last element, in the first and in the last
+        # string member of the element (before / after its other members)
+        def min_elem(sub, extra):
+            first = meta.first_field(sub)
+            el = []
+            if first is not None and first not in {x.fnum for x in extra}:
+                el.append(G.Fld(first, G.gen_value(rng, meta.trait(sub, first).ftype, first)))
+            for t in meta.traits.get(sub, []):
+                if t.mandatory and t.fnum != first and t.fnum not in {x.fnum for x in extra}:
+                    el.append(G.Fld(t.fnum, b"0" if t.group else G.gen_value(rng, t.ftype, t.fnum)))
+            el += extra
+            rng.shuffle(el)
+            return el
+
+        def sub_strings(sub):
+            ss = sorted([t for t in meta.traits.get(sub, []) if t.ftype == G.FT_STRING and not t.group], key=lambda t: t.pos)
+            return ([ss[0]] + ([ss[-1]] if len(ss) > 1 else [])) if ss else []
+        lbase = G.MsgGen(meta, rng, p_opt=0.05, max_elems=0, no_pairs=True)
+        sites = []
+        for mt in types:
+            for gf, sub in sorted(meta.groups.get(mt, {}).items()):
+                if not G.FT_INT <= meta.fields.get(gf, (0, ""))[0] <= G.FT_END_INT:
+                    continue
+                for t in sub_strings(sub):
+                    sites.append((mt, [(gf, sub)], t))
+                for gf2, sub2 in sorted(meta.groups.get(sub, {}).items()):
+                    if not G.FT_INT <= meta.fields.get(gf2, (0, ""))[0] <= G.FT_END_INT:
+                        continue
+                    for t in sub_strings(sub2):
+                        sites.append((mt, [(gf, sub), (gf2, sub2)], t))
+        d1 = [x for x in sites if len(x[1]) == 1]
+        d2 = [x for x in sites if len(x[1]) == 2]
+        rng.shuffle(d1)
+        rng.shuffle(d2)
+        for mt, path, t in d1[:12 if thorough else 4] + d2[:12 if thorough else 4]:
+            for L in (1023, 1024, 1025, 2046, 2047):
+                for where in (0, 1, 2):
+                    mt2, hdr, body, trl = lbase.message(mt, max_wire=1500)
+                    gf, sub = path[-1]
+                    inner = [min_elem(sub, [G.Fld(t.fnum, G.gen_string(rng, L, L, eq=False))] if k == where else []) for k in range(3)]
+                    grp = G.Fld(gf, b"3", inner)
+                    if len(path) == 2:
+                        gf0, sub0 = path[0]
+                        outer = [min_elem(sub0, [grp] if k == 1 else []) for k in range(2)]
+                        grp = G.Fld(gf0, b"2", outer)
+                    body = [f for f in body if f.fnum != grp.fnum] + [grp]
+                    rng.shuffle(body)
+                    cs.append(Case(px + "RT s " + G.ser_msg(mt, hdr, body, []), "long-value-in-group-d%d" % len(path)))
         # flat messages (no group elements, no Length/data pair, no trailer field): the domain of theorem
         # c01_roundtrip_partial -- run them (RT) and check that its hypotheses hold for them (HYP)
         def positioned(owner):
